@@ -35,11 +35,11 @@ pub struct Req3 {
 }
 
 impl Req3 {
-    fn body(&self, i: usize) -> Vec<u8> {
+    pub fn body(&self, i: usize) -> Vec<u8> {
         let mut rng = Rng::new(self.body_seed);
         body_bytes(&mut rng, self.body_len, 100 + i)
     }
-    fn bytes(&self, i: usize) -> Vec<u8> {
+    pub fn bytes(&self, i: usize) -> Vec<u8> {
         let mut s = format!("{} /r{} HTTP/1.{}\r\nHost: t\r\n", self.method, i, if self.v10 { 0 } else { 1 });
         match self.conn {
             1 => s.push_str("Connection: close\r\n"),
@@ -76,13 +76,13 @@ impl Req3 {
     fn wants_close(&self) -> bool {
         self.conn == 1 || (self.v10 && self.conn != 2)
     }
-    fn tag(&self) -> String {
+    pub fn tag(&self) -> String {
         format!("{}{}{}{}", &self.method[..1], if self.v10 { "0" } else { "1" }, ["", "c", "k"][self.conn as usize], ["", "L", "T"][self.framing as usize])
     }
-    fn to_json(&self) -> Value {
+    pub fn to_json(&self) -> Value {
         json!({"method": self.method, "v10": self.v10, "conn": self.conn, "framing": self.framing, "body_len": self.body_len, "body_seed": self.body_seed})
     }
-    fn from_json(v: &Value) -> Self {
+    pub fn from_json(v: &Value) -> Self {
         Req3 {
             method: match v["method"].as_str() {
                 Some("POST") => "POST",
@@ -127,7 +127,7 @@ impl Case {
         }
         sc
     }
-    fn to_json(&self) -> Value {
+    pub fn to_json(&self) -> Value {
         json!({"cfg": self.cfg.to_json(), "reqs": self.reqs.iter().map(|r| r.to_json()).collect::<Vec<_>>(), "progs": self.progs.iter().map(|p| p.to_json()).collect::<Vec<_>>(), "acts": acts_to_json(&self.acts), "early_eof": self.early_eof})
     }
     fn from_json(v: &Value) -> Case {
